@@ -199,7 +199,7 @@ def main():
     lines, py = [], []
     k = 0
     try:
-        def one(n, mode, fmt, chooser, formats=None, reps=1):
+        def one(n, mode, fmt, chooser, formats=None, reps=1, yield_after_unlock=False):
             nonlocal k
             k += 1
             base = os.path.join(root, f"s{k}")
@@ -208,7 +208,7 @@ def main():
 
             def job():
                 box["pio"], box["pos"] = scenario(n, mode, fmt, base, state, formats, reps)
-            sim = simmp.simulate(job, chooser, max_steps=4000, hang_window=200)
+            sim = simmp.simulate(job, chooser, max_steps=4000, hang_window=200, yield_after_unlock=yield_after_unlock)
             bad = None
             if sim.outcome != "ok":
                 bad = f"did not complete ({sim.outcome}{': ' + repr(sim.main.exc) if sim.main.exc else ''})"
@@ -254,6 +254,21 @@ def main():
                 h.traces += 1
             if si < 2:
                 h.sample({"n": n, "mode": mode, "trace": sim.trace[:20]})
+        # ---- a second batch with a scheduling point right AFTER every lock release (a process pre-empted between releasing the lock and
+        # its next statement): whatever an updater does once it is out of the region must not disturb the others.  Judged by the final
+        # tile only (these traces have a step the Lean model does not have, so they are not replayed)
+        for si in range(120 if h.deep else 40):
+            n = rng.choice([3, 3, 4])
+            mode = rng.choice(["disjoint", "additive"])
+            chooser = simmp.RandomChooser(rng.randrange(2 ** 31), timeout_weight=0.1) if si % 3 else simmp.PCTChooser(rng.randrange(2 ** 31), depth=rng.choice([2, 3, 4]))
+            reps = 2 if si % 2 else 1
+            sim, bad, state = one(n, mode, "npy", chooser, None, reps, yield_after_unlock=True)
+            h.case(("after-release",) + tuple(sim.choices))
+            h.count("after-release-batch", f"{n} updaters")
+            if bad:
+                h.violation(f"lost:{mode}:after-release", f"{n} updaters x {reps} update(s) each ({mode}, npy), processes pre-emptible right after releasing the lock, random schedule: {bad}",
+                            input={"n": n, "mode": mode, "reps": reps, "choices": sim.choices[:300], "trace": sim.trace[:80]}, observed=bad)
+                break
         # exhaustive for two updaters
         budget = 3000 if h.deep else 400
         nruns = 0
